@@ -117,6 +117,7 @@ struct Log {
     log_every_poll: bool,
     sums: Vec<u32>, // state_sum after every iteration (silent tuning runs only; below 2^32)
     lite: bool, // long runs: no whole-memory diff, periodic `snap` events so that the trace can be validated in shards
+    pend_at_exit: bool,
 }
 fn mix(h: u64, x: u64) -> u64 {
     (h ^ x).wrapping_mul(0x100000001b3).rotate_left(13)
@@ -181,6 +182,9 @@ impl Log {
     }
     fn on_iteration(&mut self, cpu: &mut Cpu, pc_before: u32, opcode: u16, state: u32) {
         self.iters += 1;
+        if cpu.vh_pc() == self.exit_addr {
+            self.pend_at_exit = !cpu.vh_pending().is_empty();
+        }
         if cpu.vh_pending().len() > 64 {
             // a guest program that is interrupted faster than it can return is a driver mistake: stop it
             self.iters = self.max_iters;
@@ -222,6 +226,7 @@ fn hash_bytes(b: &[u8]) -> u64 {
 
 pub struct RunSummary {
     pub sums: Vec<u32>,
+    pub pend_at_exit: bool,
     pub res: &'static str,
     pub regs: Regs,
     pub sum: usize,
@@ -292,7 +297,7 @@ pub fn run_program_x(p: &Program, elf_path: &str, log: Option<&str>, schedule: V
     };
     let lg = Rc::new(RefCell::new(Log {
         w, id: first_id, shadow: None, schedule, poll_no: 0, batch: Vec::new(), in_tx, iters: 0, max_iters, stop_sent: false, exit_addr: cpu.exit_addr,
-        h_pcst: 0, h_msgs: 0, n_msgs: 0, extra_polls_after_schedule: extra_polls, log_every_poll: false, sums: Vec::new(), lite,
+        h_pcst: 0, h_msgs: 0, n_msgs: 0, extra_polls_after_schedule: extra_polls, log_every_poll: false, sums: Vec::new(), lite, pend_at_exit: false,
     }));
     let (l1, l2, l3) = (lg.clone(), lg.clone(), lg.clone());
     verif_hooks::set_on_poll(Some(Box::new(move |c: &mut Cpu| l1.borrow_mut().on_poll(c))));
@@ -326,7 +331,8 @@ pub fn run_program_x(p: &Program, elf_path: &str, log: Option<&str>, schedule: V
     }
     cpu.vh_detach_socket();
     let sums = std::mem::take(&mut l.sums);
-    Ok(RunSummary { sums, res, regs, sum: cpu.vh_state_sum(), iters: l.iters, h_pcst: l.h_pcst, h_msgs: l.h_msgs, n_msgs: l.n_msgs, events: l.id })
+    let pend_at_exit = l.pend_at_exit;
+    Ok(RunSummary { sums, pend_at_exit, res, regs, sum: cpu.vh_state_sum(), iters: l.iters, h_pcst: l.h_pcst, h_msgs: l.h_msgs, n_msgs: l.n_msgs, events: l.id })
 }
 
 // ------------------------------------------------------------------------------------------------
@@ -487,6 +493,43 @@ pub fn prog_timer(iter: u32, tcora: u8, tcr: u8) -> Program {
     a.w(39);
     a.long_label("ovf");
     finish("timer", a, "")
+}
+
+/// timer left running up to the exit address: `pad` shifts the phase of the last instruction against the
+/// compare-match period, so that (for the right pad) the request is raised BY the instruction that reaches
+/// the exit address - run() must still report success there and then
+pub fn prog_timer_exit(iter: u32, tcora: u8, tcr: u8, pad: u32) -> Program {
+    let mut a = Asm::new(BASE);
+    a.mov_l_imm(0, 113);
+    a.mov_l_label(1, "hblk");
+    a.trapa(0); // set_handler(36, handler)
+    a.mov_b_imm(8, tcora);
+    a.mov_b_store_abs24(8, 0xffff84); // TCORA
+    a.mov_b_imm(8, 0xfe);
+    a.mov_b_store_abs24(8, 0xffff86); // TCORB
+    a.mov_b_imm(8, tcr);
+    a.mov_b_store_abs24(8, 0xffff80); // TCR: start
+    a.mov_l_imm(0, 0);
+    a.mov_l_imm(6, iter);
+    a.label("loop");
+    a.adds(1, 0);
+    a.dec_l1(6);
+    a.bcc8(6, "loop");
+    for _ in 0..pad {
+        a.mov_b_rr(8, 8);
+    }
+    epilogue(&mut a);
+    a.label("handler");
+    a.push_l(0);
+    a.mov_b_imm(8, 0);
+    a.mov_b_store_abs24(8, 0xffff82); // clear the flags
+    a.pop_l(0);
+    a.rte();
+    a.label("hblk");
+    a.w(0);
+    a.w(36);
+    a.long_label("handler");
+    finish("timer-exit", a, "")
 }
 
 /// hostile programs for C15: slow bus + long instruction (charge above 85 states), stack running into a hole,
@@ -672,6 +715,42 @@ pub fn run_run_program(args: &Args) -> Result<()> {
             writeln!(w, "{{\"k\":\"cmp\",\"id\":{},\"what\":\"repeated-run-{}{}\",\"a\":{},\"b\":{}}}", id, rep, if rep >= 2 { "-under-load" } else { "" }, j_u32s(&s1.vec()), j_u32s(&s2.vec()))?;
             id += 1;
             total_events += 1;
+        }
+    }
+    if !c15 && !small {
+        // (a) the time base does not depend on WHEN control lines arrive: pause / start / a redundant start in
+        //     the middle of a long run that crosses two sync thresholds afterwards
+        let p = prog_count(17_700, 2);
+        let mut sched: Vec<Vec<String>> = vec![Vec::new(); 9_001];
+        sched[4_100] = vec!["cmd:pause".to_string()];
+        sched[4_103] = vec!["cmd:start".to_string()];
+        sched[9_000] = vec!["cmd:start".to_string()];
+        let log = format!("{}/thr_lite_{:02}.ndjson", outdir, progs.len());
+        let s = run_program_x(&p, &elf_path, Some(&log), sched, 300_000, 0, &mut rng, 0, true)?;
+        total_events += s.events;
+        nprog += 1;
+        // (b) an interrupt request raised by the very instruction that reaches the exit address: input
+        //     selection by measuring silent runs (no expected value involved), then one logged run
+        let mut chosen: Option<u32> = None;
+        for pad in 0..90u32 {
+            let p = prog_timer_exit(60, 200, 0x49, pad);
+            let r = run_program(&p, &elf_path, None, vec![], 50_000, 0, &mut rng, 0)?;
+            if std::env::var("H8_DEBUG_PAD").is_ok() {
+                eprintln!("pad {} res {} pend_at_exit {} iters {} sum {}", pad, r.res, r.pend_at_exit, r.iters, r.sum);
+            }
+            if r.res == "ok" && r.pend_at_exit {
+                chosen = Some(pad);
+                break;
+            }
+        }
+        if let Some(pad) = chosen {
+            let p = prog_timer_exit(60, 200, 0x49, pad);
+            let log = format!("{}/thr_run_{:02}.ndjson", outdir, progs.len() + 1);
+            let s = run_program_x(&p, &elf_path, Some(&log), vec![], 50_000, 0, &mut rng, 0, false)?;
+            total_events += s.events;
+            nprog += 1;
+        } else {
+            eprintln!("run-program: no padding makes the compare match fall into the last instruction (input selection failed)");
         }
     }
     let _ = std::fs::remove_file(&elf_path);
